@@ -60,6 +60,10 @@ def world_key(w: W.World, extra=None):
         if j["user"] == "me" and j["id"] not in tracked_rev and j["state"] in ("PENDING", "RUNNING")
     )
     other_tracked = {b: t for b, t in (w.tracked or {}).items() if b != backend and t}
+    if getattr(w, "pool", None) is not None:
+        from mc import localbridge
+
+        extra = (extra, localbridge.key_part(w.pool), (w.tracked or {}).get("local"))
     return digest(
         dict(files=w.canon_files(), hashes=w.hashes, logs=sorted(w.logs), tracked=tj, stray=stray, other=other_tracked, conf=w.conf,
              wf=repr(w.wf.key()), extra=extra)
